@@ -218,6 +218,8 @@ pub fn drive(gates: &Arc<Gates>, rx: &mpsc::Receiver<Msg>, n: usize, cfg: &Sched
     let start = Instant::now();
     // when each thread was last let go
     let mut since: Vec<Instant> = vec![Instant::now(); n];
+    // when the last message of any thread arrived
+    let mut last_msg = Instant::now();
     loop {
         // 1. wait until no thread is running
         while st.iter().any(|s| *s == TState::Running) {
@@ -225,7 +227,11 @@ pub fn drive(gates: &Arc<Gates>, rx: &mpsc::Receiver<Msg>, n: usize, cfg: &Sched
                 Some((_, t0)) => cfg.probe_wait.saturating_sub(t0.elapsed()).max(Duration::from_millis(1)),
                 None => Duration::from_millis(500),
             };
-            match rx.recv_timeout(wait) {
+            let got = rx.recv_timeout(wait);
+            if got.is_ok() {
+                last_msg = Instant::now();
+            }
+            match got {
                 Ok(m) => match m {
                     Msg::Arrived(t, c) => st[t] = TState::Parked(c),
                     Msg::Acquired(t) => {
@@ -284,6 +290,14 @@ pub fn drive(gates: &Arc<Gates>, rx: &mpsc::Receiver<Msg>, n: usize, cfg: &Sched
                             st[t] = TState::Blocked;
                             log.blocked_in_call += 1;
                         }
+                    }
+                    // nobody is waiting at a gate (nothing the scheduler could grant), everybody
+                    // left is inside the server, and not a sign of life for 30 s - six times the
+                    // longest wait the backends have (the 5 s lock budget): stuck in there
+                    if !st.iter().any(|s| matches!(s, TState::Parked(_))) && last_msg.elapsed() > Duration::from_secs(30) {
+                        log.inconclusive = Some(format!("stuck: no request thread has reached a storage call or finished for 30 s, and none waits at a gate: threads {st:?}, holders {holders:?}"));
+                        gates.release_all();
+                        return log;
                     }
                     if start.elapsed() > cfg.watchdog {
                         log.inconclusive = Some(format!("watchdog: threads {st:?}, holders {holders:?}"));
